@@ -22,14 +22,19 @@ def expr_pool(depth):
                 new.append((op, x, y))
         seen = set(prev)
         pools.append(prev + [x for x in dict.fromkeys(new) if x not in seen])
-    return pools[-1]
+    # nested calls in every argument position, siblings referencing other columns on either side
+    nested = [("add", A, ("neg", B)), ("add", ("neg", A), B), ("sub", C, ("mul", B, ("lit", 2))), ("mul", ("add", A, B), ("neg", C)),
+              ("add", A, ("add", B, C)), ("add", ("add", A, B), C), ("neg", ("add", A, ("neg", B))), ("sub", ("sub", A, K), ("sub", B, C)),
+              ("add", C, ("mul", ("neg", A), ("add", B, K))), ("mul", ("lit", 3), ("sub", ("neg", C), A))]
+    seen = set(pools[-1])
+    return pools[-1] + [x for x in nested if x not in seen]
 
 
 def atoms():
     return [
         ("plit", True), ("plit", False), ("pref", "a"),
         ("gt", A, K), ("eq", A, B), ("le", ("add", A, B), M), ("ne", ("neg", A), K), ("lt", B, ("mul", A, ("lit", 2))),
-        ("ge", ("sub", A, K), B),
+        ("ge", ("sub", A, K), B), ("gt", ("add", A, ("neg", B)), K), ("eq", ("sub", C, ("mul", B, ("lit", 2))), A),
         ("inseq", B, (A, K)), ("inseq", A, ()), ("inseq", A, (("lit", 1), ("lit", 1), B)),
         ("inrange", A, 1, 6, 2), ("inrange", ("add", A, B), 0, 4, 1), ("inrange", A, 5, 0, -1), ("inrange", B, 6, -2, -3),
         ("inrange", A, 3, 3, 1), ("inrange", A, 2, 5, -1),
